@@ -688,6 +688,23 @@ Section Share.
 
   Definition ktext (k : dkey) : pstr := match k_val k with Some sc => key_text sc | None => [] end.
 
+  (* the guard's distinctness (pairwise distinct JSON spellings of the keys still to come and of those already in
+     `acc`) makes the collision branch of dict_get_state dead *)
+  Lemma nodup_no_collision k sc (acc : list (pstr * json)) rest :
+    k_val k = Some sc -> NoDup (map fst acc ++ key_text sc :: rest) -> key_collides k acc = false.
+  Proof.
+    intros Ek Hnd. unfold key_collides. rewrite Ek. destruct (mem (key_text sc) (map fst acc)) eqn:Hm; [|reflexivity].
+    apply mem_In in Hm. apply NoDup_remove_2 in Hnd. exfalso. apply Hnd. apply in_or_app. left. exact Hm.
+  Qed.
+  Lemma jset_fresh_notin t j acc : ~ In t (map fst acc) -> jset t j acc = acc ++ [(t, j)].
+  Proof using.
+    induction acc as [|[t' j'] acc IH]; cbn [map fst In jset app]; intros H; [reflexivity|].
+    destruct (pstr_eqb t t') eqn:Eq; [apply pstr_eqb_eq in Eq; exfalso; apply H; left; symmetry; exact Eq|].
+    rewrite IH; [reflexivity|]. intro Hin. apply H. right. exact Hin.
+  Qed.
+  Lemma NoDup_shift {A} (a b : list A) t : NoDup (a ++ t :: b) -> NoDup ((a ++ [t]) ++ b).
+  Proof. rewrite <- app_assoc. cbn [app]. exact (fun H => H). Qed.
+
   Lemma content_states f : forall items acc st cont st',
     Forall (fun kv => is_prop (snd kv) = false /\ k_val (fst kv) <> None) items ->
     NoDup (map fst acc ++ map (fun kv => ktext (fst kv)) items) ->
@@ -697,17 +714,16 @@ Section Share.
     induction items as [|[k x] items IH]; intros acc st cont st' Hf Hnd H; cbn [content_of] in H.
     - injection H as <- <-. exists []. split; [reflexivity|]. cbn. rewrite app_nil_r. reflexivity.
     - inversion Hf as [|? ? [Hp Hk] Hf']; subst. cbn [fst snd] in Hp, Hk. rewrite Hp in H.
-      destruct (f x st) as [[j st1]|] eqn:Ef; [|discriminate]. cbn [bind] in H.
       destruct (k_val k) as [sc|] eqn:Ek; [|congruence].
       cbn [map fst] in Hnd. unfold ktext in Hnd at 1. rewrite Ek in Hnd.
-      rewrite jset_fresh in H.
-      2:{ apply dget_none_notin. intro Hin. apply NoDup_remove_2 in Hnd. apply Hnd. apply in_or_app. left. exact Hin. }
+      assert (Hfresh : ~ In (key_text sc) (map fst acc)).
+      { intro Hin. apply NoDup_remove_2 in Hnd. apply Hnd. apply in_or_app. left. exact Hin. }
+      pose proof (nodup_no_collision k sc acc _ Ek Hnd) as Hkc.
+      rewrite Hkc in H.
+      destruct (f x st) as [[j st1]|] eqn:Ef; [|discriminate]. cbn [bind] in H.
+      rewrite jset_fresh in H by (apply dget_none_notin; exact Hfresh).
       destruct (IH (acc ++ [(key_text sc, j)]) st1 cont st' Hf') as [js [Hs Hc]].
-      { rewrite map_app. cbn [map fst]. rewrite <- app_assoc. cbn [app].
-        clear -Hnd. revert Hnd. generalize (map fst acc) as a, (map (fun kv : dkey * pval => ktext (fst kv)) items) as b, (key_text sc) as t.
-        intros a b t H. induction a as [|y a IHa]; cbn [app] in *; [exact H|].
-        inversion H as [|? ? Hy Hr]; subst. constructor; [|apply IHa; exact Hr].
-        intro Hin. apply Hy. apply in_app_or in Hin. apply in_or_app. destruct Hin as [Hin|[<-|Hin]]; [left; exact Hin|right; left; reflexivity|right; right; exact Hin]. }
+      { rewrite map_app. cbn [map fst]. apply NoDup_shift. exact Hnd. }
       { exact H. }
       exists (j :: js). cbn [map snd states_of]. rewrite Ef. cbn [bind]. rewrite Hs. cbn [bind]. split; [reflexivity|].
       rewrite Hc. cbn [map fst combine]. unfold ktext at 2. rewrite Ek. rewrite <- app_assoc. reflexivity.
